@@ -8,9 +8,9 @@ use crate::spec::*;
 use std::time::{Duration, Instant};
 
 fn still_fails(v: &Violation, cand: &Scenario) -> Option<Violation> {
-    let dangerous = v.class == "HANG" || v.class == "CRASH";
+    let dangerous = v.class == "HANG" || v.class == "CRASH" || v.profile == "release";
     let rep = if dangerous {
-        exec_in_child(cand).ok()?
+        exec_in_child(cand, &v.profile).ok()?
     } else {
         match crate::run::guarded(|| props::execute(cand)) {
             Ok(Some(r)) => r,
@@ -20,6 +20,10 @@ fn still_fails(v: &Violation, cand: &Scenario) -> Option<Violation> {
     rep.violations
         .into_iter()
         .find(|w| w.class == v.class && w.site == v.site)
+        .map(|mut w| {
+            w.profile = v.profile.clone();
+            w
+        })
 }
 
 /// candidate simplifications of a scenario, most aggressive first
